@@ -579,6 +579,11 @@ func (c *crashRunner) eval(img image) {
 	var retry []int64
 	if op.Op == "delete" {
 		retry = op.S
+		for _, o := range op.S {
+			if o < 0 { // a set with a relative offset is rejected as a whole: nothing to retry
+				retry = nil
+			}
+		}
 	}
 	obs, events := c.observe(img, dir, c.opts[i], 1, retry)
 	c.emit(img, S, T, info, obs, 1, img.what)
